@@ -361,6 +361,14 @@ func CastleStress(rng *rand.Rand) string {
 // checks discovered through the vacated square, and the double push giving check itself.
 // It returns the FEN and the from/to squares of the double push.
 func EpStress(rng *rand.Rand) (string, int, int) {
+	fen, mv := EpStress2(rng)
+	return fen, mv[0], mv[1]
+}
+
+// EpStress2 is EpStress, and in a third of the cases it also prepares a second capturable double push
+// as the reply (two consecutive plies that both set an en-passant target). It returns the FEN and the
+// forced moves as from,to pairs.
+func EpStress2(rng *rand.Rand) (string, []int) {
 	for {
 		bd := make([]int, 64)
 		c := rng.Intn(2) // pusher
@@ -450,10 +458,228 @@ func EpStress(rng *rand.Rand) (string, int, int) {
 			}
 			bd[s] = 8*rng.Intn(2) + t
 		}
+		forced := []int{from, to}
+		if rng.Intn(3) == 0 {
+			// reply: opponent double push landing next to one of the pusher's pawns
+			oh, ot, od := 6, 4, -1
+			if c == 1 {
+				oh, ot, od = 1, 3, 1
+			}
+			g := rng.Intn(8)
+			nf := g + []int{-1, 1}[rng.Intn(2)]
+			if nf >= 0 && nf < 8 && g != f && bd[oh*8+g] == 0 && bd[(oh+od)*8+g] == 0 && bd[ot*8+g] == 0 && bd[ot*8+nf] == 0 &&
+				(oh+od)*8+g != mid && ot*8+g != to && ot*8+nf != to && ot*8+nf != mid {
+				bd[oh*8+g] = 8*(1-c) + 1
+				bd[ot*8+nf] = 8*c + 1
+				forced = append(forced, oh*8+g, ot*8+g)
+			}
+		}
 		if Attacked(bd, kingSq(bd, 1-c), c) {
 			continue
 		}
-		return FEN(bd, c, 0, -1, rng.Intn(30), 1+rng.Intn(60)), from, to
+		return FEN(bd, c, 0, -1, rng.Intn(30), 1+rng.Intn(60)), forced
+	}
+}
+
+func kingHasSafeMove(bd []int, c int) bool {
+	k := kingSq(bd, c)
+	for i := 0; i < 8; i++ {
+		f, r := k%8+df[i], k/8+dr[i]
+		if !onBoard(f, r) {
+			continue
+		}
+		t := r*8 + f
+		if bd[t] != 0 && bd[t]/8 == c {
+			continue
+		}
+		nb := append([]int(nil), bd...)
+		nb[k] = 0
+		nb[t] = 8*c + 6
+		if !Attacked(nb, t, 1-c) {
+			return true
+		}
+	}
+	return false
+}
+
+func countsOK(bd []int) bool {
+	for c := 0; c < 2; c++ {
+		var n [7]int
+		for _, p := range bd {
+			if p != 0 && p/8 == c {
+				n[p%8]++
+			}
+		}
+		if n[6] != 1 || n[1]+max(n[2]-2, 0)+max(n[3]-2, 0)+max(n[4]-2, 0)+max(n[5]-1, 0) > 8 {
+			return false
+		}
+	}
+	return true
+}
+
+// BoxedKing builds positions in which the king of the side to move has no safe move, so that the
+// answer of the checkmate / stalemate tests hinges on the other pieces: pawn pushes and captures
+// (edge files included), double-push blocks, pinned defenders, en-passant resolutions.
+// inCheck selects whether the side to move is in check.
+func BoxedKing(rng *rand.Rand, inCheck bool) string {
+	for {
+		bd := make([]int, 64)
+		c := rng.Intn(2)
+		k := rng.Intn(64)
+		if rng.Intn(3) != 0 { // edges and corners
+			switch rng.Intn(3) {
+			case 0:
+				k = []int{0, 7, 56, 63}[rng.Intn(4)]
+			case 1:
+				k = rng.Intn(8) + 56*rng.Intn(2)
+			default:
+				k = rng.Intn(8)*8 + 7*rng.Intn(2)
+			}
+		}
+		bd[k] = 8*c + 6
+		ek := rng.Intn(64)
+		if abs(ek%8-k%8) <= 1 && abs(ek/8-k/8) <= 1 {
+			continue
+		}
+		bd[ek] = 8*(1-c) + 6
+		// enemy pieces until the king is boxed in
+		for i := 0; i < 6; i++ {
+			sq := rng.Intn(64)
+			if bd[sq] != 0 {
+				continue
+			}
+			t := []int{5, 4, 4, 3, 2, 1}[rng.Intn(6)]
+			if t == 1 && (sq/8 == 0 || sq/8 == 7) {
+				continue
+			}
+			bd[sq] = 8*(1-c) + t
+			if !kingHasSafeMove(bd, c) && i >= 1 {
+				break
+			}
+		}
+		// own blockers next to the king now and then
+		for i, n := 0, rng.Intn(3); i < n; i++ {
+			d := rng.Intn(8)
+			f, r := k%8+df[d], k/8+dr[d]
+			if onBoard(f, r) && bd[r*8+f] == 0 {
+				t := []int{1, 1, 2, 3, 4}[rng.Intn(5)]
+				if t == 1 && (r == 0 || r == 7) {
+					continue
+				}
+				bd[r*8+f] = 8*c + t
+			}
+		}
+		if kingHasSafeMove(bd, c) {
+			continue
+		}
+		// the other pieces of the side to move: pawns (edge files favoured) and a piece or two,
+		// with enemy men placed where they can be captured / block
+		for i, n := 0, 1+rng.Intn(4); i < n; i++ {
+			sq := rng.Intn(64)
+			if rng.Intn(2) == 0 {
+				sq = rng.Intn(8)*8 + 7*rng.Intn(2)
+			}
+			if bd[sq] != 0 {
+				continue
+			}
+			t := []int{1, 1, 1, 2, 3, 4, 5}[rng.Intn(7)]
+			if t == 1 && (sq/8 == 0 || sq/8 == 7) {
+				continue
+			}
+			bd[sq] = 8*c + t
+			if t == 1 && rng.Intn(2) == 0 {
+				// something in front of it or on its capture squares
+				dir := 1
+				if c == 1 {
+					dir = -1
+				}
+				for _, dfile := range []int{-1, 0, 1} {
+					f, r := sq%8+dfile, sq/8+dir
+					if onBoard(f, r) && bd[r*8+f] == 0 && rng.Intn(2) == 0 {
+						et := []int{1, 2, 3, 4}[rng.Intn(4)]
+						if et == 1 && (r == 0 || r == 7) {
+							continue
+						}
+						bd[r*8+f] = 8*(1-c) + et
+					}
+				}
+			}
+		}
+		if !countsOK(bd) || Attacked(bd, kingSq(bd, 1-c), c) {
+			continue
+		}
+		chk := Attacked(bd, k, 1-c)
+		if chk != inCheck {
+			continue
+		}
+		// en-passant target when the shape allows and a capture is legal
+		ep := -1
+		for f := 0; f < 8 && ep < 0; f++ {
+			if c == 0 && bd[4*8+f] == 9 && bd[5*8+f] == 0 && bd[6*8+f] == 0 && EpCapturable(bd, 0, 5*8+f) && rng.Intn(2) == 0 {
+				ep = 5*8 + f
+			}
+			if c == 1 && bd[3*8+f] == 1 && bd[2*8+f] == 0 && bd[1*8+f] == 0 && EpCapturable(bd, 1, 2*8+f) && rng.Intn(2) == 0 {
+				ep = 2*8 + f
+			}
+		}
+		return FEN(bd, c, 0, ep, 0, 1+rng.Intn(80))
+	}
+}
+
+// DeadEpStress: a double pawn push (edge files favoured) after which NO en-passant capture should be
+// recorded although enemy pawns stand nearby (wrap-around squares, wrong rank, pinned neighbours),
+// on a board with knights to shuffle so that the position after the push can recur.
+func DeadEpStress(rng *rand.Rand) (string, []int) {
+	for {
+		bd := make([]int, 64)
+		c := rng.Intn(2)
+		f := []int{0, 7, 0, 7, rng.Intn(8)}[rng.Intn(5)]
+		homeR, toR, dir := 1, 3, 1
+		if c == 1 {
+			homeR, toR, dir = 6, 4, -1
+		}
+		from, mid, to := homeR*8+f, (homeR+dir)*8+f, toR*8+f
+		bd[from] = 8*c + 1
+		for i, n := 0, 1+rng.Intn(3); i < n; i++ {
+			r := toR + rng.Intn(3) - 1
+			g := rng.Intn(8)
+			if rng.Intn(2) == 0 {
+				g = 7 - f // the file a wrap-around would reach
+			}
+			sq := r*8 + g
+			if sq == mid || sq == to || sq == from || r < 1 || r > 6 || bd[sq] != 0 {
+				continue
+			}
+			if r == toR && abs(g-f) == 1 {
+				continue // that one could really capture
+			}
+			bd[sq] = 8*(1-c) + 1
+		}
+		place := func(pc int) bool {
+			for try := 0; try < 30; try++ {
+				sq := rng.Intn(64)
+				if bd[sq] == 0 && sq != mid && sq != to {
+					bd[sq] = pc
+					return true
+				}
+			}
+			return false
+		}
+		place(6)
+		place(14)
+		place(2)
+		place(10)
+		if rng.Intn(2) == 0 {
+			place(8*rng.Intn(2) + 4)
+		}
+		wk, bk := kingSq(bd, 0), kingSq(bd, 1)
+		if wk < 0 || bk < 0 || (abs(wk%8-bk%8) <= 1 && abs(wk/8-bk/8) <= 1) {
+			continue
+		}
+		if Attacked(bd, kingSq(bd, 1-c), c) || Attacked(bd, kingSq(bd, c), 1-c) {
+			continue
+		}
+		return FEN(bd, c, 0, -1, 0, 1+rng.Intn(40)), []int{from, to}
 	}
 }
 
